@@ -348,6 +348,10 @@ func (b *Builder) Sub(x, y *Term) *Term {
 	if y.IsConst() {
 		return b.Add(x, b.Const(w, new(big.Int).Neg(y.K)))
 	}
+	// 1 - bit = not bit
+	if x.IsConst() && x.K.Cmp(bigOne) == 0 && w > 1 && b.Maybe(y).Cmp(bigOne) <= 0 {
+		return b.ZExt(b.Not(b.Extract(y, 0, 0)), w)
+	}
 	return b.mk(OSub, x.S, nil, 0, 0, "", x, y)
 }
 
